@@ -344,7 +344,7 @@ def generate(rng, idx, tier, variant):
         spec['dtype'] = rng.choice(['int', 'float32', 'bool'])
     if fam == 'linker':
         subs = {}
-        for sid in ['A', 'B', 'C'][: (1 if one_sub else rng.randint(0, 3))]:
+        for sid in ['r9', 'r10', 'A'][: (1 if one_sub else rng.randint(0, 3))]:
             ms = S.gen_spec(rng, 'solver', tier)
             ms['lags'] = min(ms['lags'], max(0, (n - 1) // 2))
             ms['leads'] = min(ms['leads'], max(0, n - 1 - ms['lags']))
@@ -540,7 +540,7 @@ def generate(rng, idx, tier, variant):
             ops.append({'op': 'solve', 'obj': p, 'opts': opts, 'trace': rng.random() < 0.6})
         elif kind == 'sub_poke':
             g['base'] += 7
-            ops.append({'op': 'sub_poke', 'obj': p, 'sub': rng.choice(['A', 'B', 'C']), 'k': rng.randrange(4), 'pos': rng.randrange(n), 'v': float(g['base'])})
+            ops.append({'op': 'sub_poke', 'obj': p, 'sub': rng.choice(['r9', 'r10', 'A']), 'k': rng.randrange(4), 'pos': rng.randrange(n), 'v': float(g['base'])})
         elif kind == 'reindex':
             U = n + 6
             r = rng.random()
